@@ -164,10 +164,11 @@ def gen_wellformed(kind: str) -> t.Iterator[t.Tuple[t.Any, t.Callable[[], t.Any]
                 v = struct.pack("<B3x4sIHH", 0, rpc.DREP, 9, 1, 0)
                 return R.CommandHeader2(flags=R.CommandFlags(fl), packet_type=R.PacketType(0), data_rep=R.DataRep(), call_id=9, context_id=1, opnum=0), (3, fl, v)
             unk = 0x55 if not fl & rpc.VT_MUST else 0x0C  # unknown command types that coincide with unknown floor protocol ids used below
-            return R.Command(command=R.CommandType(unk), flags=R.CommandFlags(fl), value=b"\x01\x02\x03"), (unk, fl, b"\x01\x02\x03")
+            val = b"" if code == "z" else b"\x01\x02\x03"  # z: an unknown command whose value is empty (legal: length 0)
+            return R.Command(command=R.CommandType(unk), flags=R.CommandFlags(fl), value=val), (unk, fl, val)
 
         for k in (1, 2, 3):
-            for codes in itertools.product("bphu", repeat=k):
+            for codes in itertools.product("bphuz", repeat=k):
                 for musts in itertools.product((0, rpc.VT_MUST), repeat=k):
                     pairs = [cmds(c, m | (rpc.VT_END if i == k - 1 else 0)) for i, (c, m) in enumerate(zip(codes, musts))]
                     ref = rpc.enc_vt([p[1] for p in pairs])
